@@ -309,4 +309,95 @@ theorem shiftAt_zero (shape : List Nat) (f : List Nat → Rat) (idx : List Nat) 
       simp only [zerosLike, shiftAt, Nat.zero_le, Nat.sub_zero, h.1, and_self, if_true]
       exact ih (fun t => f (j :: t)) js h.2
 
+/-! ### coarsening as coded -/
+
+theorem halfUp_even (m : Nat) : halfUp (2 * m) = m := by unfold halfUp; omega
+
+theorem coarsenCoded1_even (orig m : Nat) (hm : m ≤ orig / 2) (g : Nat → Rat) :
+    coarsenCoded1 orig (2 * m) g = .ok (coarsen1 (2 * m) g) := by
+  have h1 : min (orig / 2) (halfUp (2 * m)) = m := by rw [halfUp_even]; omega
+  have h2 : 2 * m / 2 = m := by omega
+  simp only [coarsenCoded1, h1, h2, if_true]
+  congr 1
+  funext j
+  simp only [coarsen1, h2]
+
+/-- extents divisible by `2^levels`: the code performs exactly the ideal pairwise averaging, at every level -/
+theorem coarsenCodedLevels_pow2 (orig : Nat) : ∀ (l cur : Nat) (g : Nat → Rat), 2 ^ l ∣ cur → cur ≤ orig →
+    coarsenCodedLevels orig l cur g = .ok (coarsenIdeal l cur g) := by
+  intro l
+  induction l with
+  | zero => intro cur g _ _; rfl
+  | succ l ih =>
+    intro cur g hd hc
+    obtain ⟨q, hq⟩ := hd
+    have hcur : cur = 2 * (2 ^ l * q) := by rw [hq, pow_succ]; ring
+    have hm : 2 ^ l * q ≤ orig / 2 := by omega
+    simp only [coarsenCodedLevels, coarsenIdeal]
+    rw [hcur, coarsenCoded1_even orig _ hm g, halfUp_even]
+    exact ih (2 ^ l * q) _ ⟨q, rfl⟩ (by omega)
+
+theorem coarsen1_sum_even' (m : Nat) (g : Nat → Rat) :
+    sumRange m (coarsen1 (2 * m) g) * 2 = sumRange (2 * m) g := by
+  have := coarsen1_sum_even m g
+  rw [show m * 2 = 2 * m from by ring, halfUp_even] at this
+  exact this
+
+theorem coarsenIdeal_sum : ∀ (l cur : Nat) (g : Nat → Rat), 2 ^ l ∣ cur →
+    (coarsenIdeal l cur g).1 * 2 ^ l = cur ∧
+      sumRange (coarsenIdeal l cur g).1 (coarsenIdeal l cur g).2 * (2 ^ l : Rat) = sumRange cur g := by
+  intro l
+  induction l with
+  | zero => intro cur g _; simp [coarsenIdeal]
+  | succ l ih =>
+    intro cur g hd
+    obtain ⟨q, hq⟩ := hd
+    have hcur : cur = 2 * (2 ^ l * q) := by rw [hq, pow_succ]; ring
+    simp only [coarsenIdeal]
+    rw [hcur, halfUp_even]
+    obtain ⟨i1, i2⟩ := ih (2 ^ l * q) (coarsen1 (2 * (2 ^ l * q)) g) ⟨q, rfl⟩
+    constructor
+    · rw [pow_succ]; calc _ = ((coarsenIdeal l (2 ^ l * q) (coarsen1 (2 * (2 ^ l * q)) g)).1 * 2 ^ l) * 2 := by ring
+        _ = 2 * (2 ^ l * q) := by rw [i1]; ring
+    · rw [← coarsen1_sum_even' (2 ^ l * q) g, ← i2, pow_succ]; ring
+
+/-- first level, odd extent `2m+1`, constant data 1: the coarsened array sums to `m + 1/2` -/
+theorem coarsen_odd_const_sum (m : Nat) :
+    sumRange (m + 1) (fun j => (1 : Rat) / 2 + (if j < m then (1 : Rat) / 2 else 0)) = (m : Rat) + 1 / 2 := by
+  simp only [sumRange, Nat.lt_irrefl, if_false, add_zero]
+  have : sumRange m (fun j => (1 : Rat) / 2 + (if j < m then (1 : Rat) / 2 else 0)) = sumRange m (fun _ => (1 : Rat)) := by
+    apply sumRange_congr; intro j hj; simp [hj]; norm_num
+  rw [this, sumRange_const]; ring
+
+/-! ### Resize metadata, equalize_voxel_size -/
+
+theorem floor_nat_add_half (k : Nat) : Rat.floor ((k : Rat) + 1 / 2) = (k : Int) := by
+  have h1 : (k : Int) ≤ Rat.floor ((k : Rat) + 1 / 2) := by
+    rw [Rat.le_floor_iff]; push_cast; linarith
+  have h2 : Rat.floor ((k : Rat) + 1 / 2) < (k : Int) + 1 := by
+    rw [Rat.floor_lt_iff]; push_cast; linarith
+  omega
+
+/-- an extent that is an integer multiple `k` of the requested voxel size gets exactly `k` voxels -/
+theorem equalizeCount_of_multiple (vs : Rat) (hv : 0 < vs) (k : Nat) : equalizeCount vs ((k : Rat) * vs) = k := by
+  have : (k : Rat) * vs / vs = k := by field_simp
+  simp only [equalizeCount, this, floor_nat_add_half]
+  rfl
+
+/-- in general the number of voxels is the integer nearest to `d / voxel_size` -/
+theorem equalizeCount_nearest (vs d : Rat) (hq : 0 ≤ d / vs) :
+    ((equalizeCount vs d : Nat) : Rat) ≤ d / vs + 1 / 2 ∧ d / vs - 1 / 2 < ((equalizeCount vs d : Nat) : Rat) := by
+  have hf : 0 ≤ Rat.floor (d / vs + 1 / 2) := by
+    rw [Rat.le_floor_iff]; push_cast; linarith
+  have hc : ((equalizeCount vs d : Nat) : Rat) = ((Rat.floor (d / vs + 1 / 2) : Int) : Rat) := by
+    simp only [equalizeCount]
+    have : ((Rat.floor (d / vs + 1 / 2)).toNat : Int) = Rat.floor (d / vs + 1 / 2) := Int.toNat_of_nonneg hf
+    exact_mod_cast congrArg (fun z : Int => (z : Rat)) this
+  rw [hc]
+  constructor
+  · exact Rat.floor_le _
+  · have : Rat.floor (d / vs + 1 / 2) < Rat.floor (d / vs + 1 / 2) + 1 := by omega
+    have h := (Rat.floor_lt_iff (a := d / vs + 1 / 2) (x := Rat.floor (d / vs + 1 / 2) + 1)).mp this
+    push_cast at h; linarith
+
 end Darsia
